@@ -4,6 +4,7 @@ import UsualProofs.C03.ParseWf
 import UsualProofs.C03.Utf8Link
 import UsualProofs.C03.EndToEnd
 import UsualProofs.C03.Forest
+import UsualProofs.C03.Load
 /-!
 # C03 — JSON render/parse round trip and builder consistency
 
@@ -304,5 +305,33 @@ example : (Heap.run true true {} [.newList, .append (some 0) (some 0), .newDict,
       .put (some 1) [0x61] (some 2), .append (some 2) (some 1), .appendS 2 (.int 1)]).2 =
     [.ptr (some 0), .flag false, .ptr (some 1), .ptr (some 2), .flag true, .flag false, .flag true] := by
   decide
+
+/-! ## parsed-then-extended trees -/
+
+/-- **A tree that came from `json_parse` is a builder state.**  The model represents a parsed tree
+`v` by running `loadOps v` — the tree built through the very builder calls (`json_new_*`,
+`json_list_append`, `json_dict_put`), then its root marked as not `UNATTACHED` — on whatever heap
+the context has reached.  This theorem shows that the representation is exact: after any history
+`ops`, loading any value `v` of the reference parser (no NUL, names ≤ `JSON_MAX_KEY`) yields again
+a *reachable* heap (so `size_eq_iter`, `attach_at_most_once`, `built_wf`, `built_json_roundtrip`
+apply to it and to every extension of it by further builder calls) in which the fresh id holds an
+attached cell whose value tree is exactly `v`, all older cells being untouched. -/
+theorem parsed_tree_is_built (cyc : Bool) (ops : List Op) (strtod : Bytes → Option UInt64)
+    (doc : Bytes) (v : JVal) (h : parse strtod doc = some v) (hz : v.noNul) (hk : v.shortKeys) :
+    let base := (reachC cyc ops).cells.length
+    let h' := reachC cyc (ops ++ loadOps v base)
+    h'.value base = some v ∧ isAtt h' base ∧ (∀ i, i < base → h'.cells[i]? = (reachC cyc ops).cells[i]?) := by
+  have hw := parsed_wf strtod doc v h hz
+  have hp : ParOK (reachC cyc ops) := ParOK.run ParOK.empty cyc ops
+  have := load_spec v hw hk cyc (reachC cyc ops) hp
+  simp only [reachC] at this ⊢
+  rw [run_append]
+  exact this
+
+/-- non-vacuity: `{"b":[1,"x"],"a":{}}` loaded after an unrelated history, then extended -/
+example : let v : JVal := .dict [([0x61], .dict []), ([0x62], .list [.int 1, .str [0x78]])]
+    let h := reachC true ([.newList, .appendS 0 (.int 5)] ++ loadOps v 2 ++ [.putS 2 [0x63] .null, .append (some 0) (some 2)])
+    h.value 2 = some (.dict [([0x61], .dict []), ([0x62], .list [.int 1, .str [0x78]]), ([0x63], .null)]) ∧
+    h.value 0 = some (.list [.int 5]) := by decide
 
 end UsualProps.C03
